@@ -383,6 +383,56 @@ func ruleSubjectDelivers() check.Rule {
 							}
 						}
 						if keeps {
+							// replay and registration form one critical section: a value sent between a replay taken from a
+							// snapshot and a later registration reaches the other subscribers and never this one
+							var reads, regs, unlocks []ast.Node
+							deferred := map[ast.Node]bool{}
+							ast.Inspect(fd.Body, func(x ast.Node) bool {
+								switch y := x.(type) {
+								case *ast.DeferStmt:
+									deferred[y.Call] = true
+								case *ast.SelectorExpr:
+									if fs := fieldSelOf(info, y, rvS); fs != nil && (fs.Sel.Name == "values" || fs.Sel.Name == "last") {
+										reads = append(reads, y)
+									}
+								case *ast.AssignStmt:
+									for _, l := range y.Lhs {
+										if fs := fieldSelOf(info, l, rvS); fs != nil && fs.Sel.Name == "observer" {
+											regs = append(regs, y)
+										}
+									}
+								case *ast.CallExpr:
+									if sel, ok := ast.Unparen(y.Fun).(*ast.SelectorExpr); ok {
+										if sel.Sel.Name == "Store" {
+											if fs := fieldSelOf(info, sel.X, rvS); fs != nil && fs.Sel.Name == "observers" {
+												regs = append(regs, y)
+											}
+										}
+										if sel.Sel.Name == "Unlock" && !deferred[y] {
+											if fs := fieldSelOf(info, sel.X, rvS); fs != nil {
+												unlocks = append(unlocks, y)
+											}
+										}
+									}
+								}
+								return true
+							})
+							akey := fmt.Sprintf("ro.%s.SubscribeWithContext/replay-register-atomic", tname)
+							var split ast.Node
+							for _, r := range reads {
+								for _, u := range unlocks {
+									for _, g := range regs {
+										if r.Pos() < u.Pos() && u.Pos() < g.Pos() && reachableAfter(fd.Body, r, u) && reachableAfter(fd.Body, u, g) {
+											split = u
+										}
+									}
+								}
+							}
+							if split != nil {
+								c.Violation(akey, split.Pos(), "the subject's lock is released between the read of the stored values and the registration of the new subscriber: a value sent in between is delivered to the other subscribers and is neither replayed nor delivered live to this one")
+							} else if len(reads) > 0 && len(regs) > 0 {
+								c.OK(akey, fd.Pos(), "the stored values are read and the subscriber is registered in one critical section")
+							}
 							pkey := fmt.Sprintf("ro.%s.SubscribeWithContext/replays", tname)
 							if kinds[0] {
 								c.OK(pkey, fd.Pos(), "the stored value(s) are sent to the new subscriber")
